@@ -1,7 +1,56 @@
-(* C04 -- theorems are added as they are proved *)
-From Coq Require Import List NArith.
-From BV Require Import Lib.PyStr Model.Rewrite Model.Files.
+(* C04 -- the rewrite changes nothing but the matched spans: line separators, untouched lines, the text
+   around a match and the newline / encoding handling of open() are preserved.
+   Statements only; the proofs are in Proofs/RewriteFacts.v. *)
+From Coq Require Import List Bool NArith Arith.
+From BV Require Import Lib.PyStr Gen.Tables Model.Rewrite Model.Files Proofs.RewriteFacts.
 Import ListNotations.
-Example C04_smoke : detect_line_sep [97;13;98]%N = [13]%N.
-Proof. vm_compute. reflexivity. Qed.
-Print Assumptions C04_smoke.
+
+Theorem C04_detect_split_join : forall content,
+  join (detect_line_sep content) (ssplit (detect_line_sep content) content) = content.
+Proof. exact detect_split_join. Qed.
+Print Assumptions C04_detect_split_join.
+
+Theorem C04_join_ssplit : forall sep s, sep <> [] -> join sep (ssplit sep s) = s.
+Proof. exact join_ssplit. Qed.
+Print Assumptions C04_join_ssplit.
+
+(* only spans change *)
+Theorem C04_apply_matches_spec : forall ms lines, ForallOrdPairs separated ms ->
+  (forall m, In m ms -> (pm_start m <= pm_end m)%nat /\ (pm_line m < length lines)%nat /\
+                        (pm_end m <= length (nth (pm_line m) lines []))%nat) ->
+  length (apply_matches ms lines) = length lines /\
+  forall i, (i < length lines)%nat ->
+    nth i (apply_matches ms lines) [] = replace_spans (nth i lines []) 0 (spans_on ms i).
+Proof. exact apply_matches_spec. Qed.
+Print Assumptions C04_apply_matches_spec.
+
+Theorem C04_untouched_lines_unchanged : forall ms lines, ForallOrdPairs separated ms ->
+  (forall m, In m ms -> (pm_start m <= pm_end m)%nat /\ (pm_line m < length lines)%nat /\
+                        (pm_end m <= length (nth (pm_line m) lines []))%nat) ->
+  forall i, (forall m, In m ms -> pm_line m <> i) -> nth i (apply_matches ms lines) [] = nth i lines [].
+Proof. exact untouched_lines_unchanged. Qed.
+Print Assumptions C04_untouched_lines_unchanged.
+
+Theorem C04_newline_empty_transparent : forall linesep s, write_translate NlEmpty linesep (read_translate NlEmpty s) = s.
+Proof. exact newline_empty_transparent. Qed.
+Print Assumptions C04_newline_empty_transparent.
+
+Theorem C04_universal_newlines_not_transparent : exists linesep s,
+  write_translate NlUniversal linesep (read_translate NlUniversal s) <> s.
+Proof. exact universal_newlines_not_transparent. Qed.
+Print Assumptions C04_universal_newlines_not_transparent.
+
+Theorem C04_repo_open_calls_transparent : forallb call_transparent OPEN_CALLS = true.
+Proof. exact repo_open_calls_transparent. Qed.
+Print Assumptions C04_repo_open_calls_transparent.
+
+Theorem C04_repo_io_identity : forall c_r c_w locale linesep s, In c_r OPEN_CALLS -> In c_w OPEN_CALLS ->
+   write_translate (call_newline c_w) linesep (read_translate (call_newline c_r) s) = s
+   /\ effective_encoding (call_encoding c_r) locale = s_utf8 /\ effective_encoding (call_encoding c_w) locale = s_utf8.
+Proof. exact repo_io_identity. Qed.
+Print Assumptions C04_repo_io_identity.
+
+Theorem C04_eager_ok_writes_all : forall fs items es,
+  rewrite_files_eager fs items = (FilesOk, es) -> map fst (writes es) = map fst items.
+Proof. exact eager_ok_writes_all. Qed.
+Print Assumptions C04_eager_ok_writes_all.
